@@ -5,9 +5,12 @@ sys.path.insert(0, here)
 props = [json.loads(l)["id"] for l in open(os.path.join(here, "properties.jsonl")) if l.strip()]
 NOT_BUILT = "check not built yet in this session (work in progress; see DESIGN.md §2 for the plan)"
 NA = {}
+READY = [l.strip() for l in open(os.path.join(here, 'tools', 'ready.txt')) if l.strip()]
 checks, served, na = [], [], []
 for pid in props:
     try:
+        if pid not in READY:
+            raise ImportError('not ready')
         m = importlib.import_module("checks." + pid)
         meta = m.META
     except Exception as e:
